@@ -742,6 +742,7 @@ class FnSpec:
         self.opts = {}
         self.files = []
         self.after_let = {}      # local name -> proof lines inserted after the statement `let NAME ...;`
+        self.after_call = {}     # (fn name, ordinal) -> proof lines inserted after the statement containing the K-th call `NAME(`
 
 
 LABEL = re.compile(r'^\s*@([A-Za-z0-9_.\-]+)\s*(\[([A-Z0-9, ]*)\])?\s*$')
@@ -866,6 +867,19 @@ def parse_spec(path, into=None):
                 mode = ('loop', mode[1])
             else:
                 cur.loops[mode[1]][mode[2]].append(line)
+            continue
+        if st.startswith('after_call ') and mode != 'body':
+            flush()
+            ws_ = st.split()
+            key_ = (ws_[1], int(ws_[2]) if len(ws_) > 2 else 0)
+            cur.after_call.setdefault(key_, [])
+            mode, target = ('aftercall', key_), None
+            continue
+        if mode and mode[0] == 'aftercall':
+            if st == 'end':
+                mode = None
+            else:
+                cur.after_call[mode[1]].append(line)
             continue
         if st.startswith('after_let ') and mode != 'body':
             flush()
